@@ -433,7 +433,9 @@ fn anyrec_strategy(big: u32) -> impl Strategy<Value = AnyRec> {
         3 => manifest_strategy(big).prop_map(AnyRec::Manifest),
         3 => object_strategy(big).prop_map(AnyRec::Object),
         1 => mtime_strategy().prop_map(AnyRec::Status),
+        // the number of delta entries is bounded only by the configurable rrdp-max-delta-list-len, not by its default of 500
         3 => state_strategy(500).prop_map(AnyRec::State),
+        1 => state_strategy(3000).prop_map(AnyRec::State),
     ]
 }
 
@@ -514,7 +516,7 @@ fn preamble() -> Result<(), String> {
 }
 
 pub fn run(ctx: &Ctx, rep: &mut Report, replay: Option<&serde_json::Value>) {
-    rep.rule("sequences of 1..=4 records (stored point header incl. one from the public constructor, stored manifest, stored object, store status, RRDP repository state) over rsync/https URIs from rpki's grammar (any-case scheme, all legal punctuation, up to 300 segments), times over chrono's whole range with and without sub-second part, serials up to 2^159-1, optional fields, ETags (strong, weak, empty, arbitrary bytes), delta maps of 0..500 entries, contents of 0..70000 bytes; written into one buffer and read back in sequence; plus stored-point files written by the writers or through StoredPoint::update (real Store) and read by load_quietly; plus mutated valid encodings for the decode-encode-decode fix-point; non-trivial = at least one optional field present and one absent, or a delta map with >= 2 entries (files: >= 2 objects with mixed hash presence or a notify URI; bytes: some decoder accepted the input); distinct by serialised case");
+    rep.rule("sequences of 1..=4 records (stored point header incl. one from the public constructor, stored manifest, stored object, store status, RRDP repository state) over rsync/https URIs from rpki's grammar (any-case scheme, all legal punctuation, up to 300 segments), times over chrono's whole range with and without sub-second part, serials up to 2^159-1, optional fields, ETags (strong, weak, empty, arbitrary bytes), delta maps of 0..500 entries (and, less often, up to 3000: the count is bounded only by the configurable rrdp-max-delta-list-len), contents of 0..70000 bytes; written into one buffer and read back in sequence; plus stored-point files written by the writers or through StoredPoint::update (real Store) and read by load_quietly; plus mutated valid encodings for the decode-encode-decode fix-point; non-trivial = at least one optional field present and one absent, or a delta map with >= 2 entries (files: >= 2 objects with mixed hash presence or a notify URI; bytes: some decoder accepted the input); distinct by serialised case");
     rep.assume("Time values are compared at the whole second the format stores by design (DESIGN §3); sub-second loss is counted as class subsecond_part_dropped_by_format, never as a failure");
     rep.assume("manifest hashes of stored objects are 32 bytes (objects are stored only after their SHA-256 manifest hash was verified); headers with an arbitrary update status are obtained by decoding the harness' reference encoding because the status type is private");
     if let Err(e) = preamble() {
